@@ -42,9 +42,14 @@ def scenarios(tier, seed):
     # the event are not carried over)
     for m in ["RK4", "Midpoint", "ABAS5O6H", "ImplicitMidpoint", "BackwardEuler"] + (["Euler", "RK5", "BABS9O7H", "GaussLegendre4", "CrankNicolson"] if thorough else []):
         for (a, b) in ((0.0, 1.0), (1.0, -1.0), (-5.0, -3.0), (1000.0, 1002.0)):
-            for div, frac in ((8.0, 0.4), (10.0, 0.77)):
+            # (div 8: the event lies in a full step; div 10 / 2.5 with the event at 0.97 / 0.9: in the CLAMPED LAST step of a call that
+            #  stops short of the configured end - finding f36)
+            for div, frac, stop in ((8.0, 0.4, None), (10.0, 0.77, None), (10.0, 0.97, 0.985), (2.5, 0.9, 0.95)):
                 sc = gen.base(m, a, b, abs(b - a) / div)
-                sc["ops"] = [{"op": "integrate", "events": [{"kind": "time", "c": a + (b - a) * frac, "term": True}]}, {"op": "integrate"}]
+                first = {"op": "integrate", "events": [{"kind": "time", "c": a + (b - a) * frac, "term": True}]}
+                if stop is not None:
+                    first["t"] = a + (b - a) * stop
+                sc["ops"] = [first, {"op": "integrate"}]
                 sc["dense"] = (len(scs) % 2 == 0)
                 scs.append(sc)
     # a stiff-ish nonlinear problem on which the stage equations of implicit methods may fail at the requested step
@@ -112,10 +117,12 @@ def check(run, replay=None):
     else:
         run.mc("OdeSystemMC", "OdeSystem_fixed")
         run.mc("OdeSystemMC", "OdeSystem_events_q")
+        run.mc("OdeSystemMC", "OdeSystem_landing")       # a terminal root strictly inside a clamped last step: the requested step survives the landing
         if run.tier == "thorough":
-            for dev, inv in (("AbsFinalClamp", "FixedStepsEqualDt"), ("DirFromSystemSpan", "SegmentMonotone"), ("ClampAdoptsDt", "FixedDtKeptBetweenSteps")):
+            for dev, inv in (("AbsFinalClamp", "FixedStepsEqualDt"), ("DirFromSystemSpan", "SegmentMonotone"), ("ClampAdoptsDt", "FixedDtKeptBetweenSteps"),
+                             ("LandingStepCarriedOver", "FixedDtKeptBetweenSteps")):
                 core.model_check("OdeSystemMC", "OdeSystem_dev" + dev, expect_violation=inv)
-            run.notes["deviation_selftest"] = "absFinalClamp, dirFromSystemSpan, clampAdoptsDt each violate their guarding invariant"
+            run.notes["deviation_selftest"] = "absFinalClamp, dirFromSystemSpan, clampAdoptsDt, landingStepCarriedOver each violate their guarding invariant"
         scs = scenarios(run.tier, run.seed)
         jobs = twin_cases(run.tier, run.seed)
     if scs:
